@@ -51,7 +51,19 @@ def eval_range(drv, wd, a, b, timeout=25):
             # died outside any fault (should not happen)
             raise C.Inconclusive("fault driver died: rc=%s %s" % (p.returncode, err[-500:]))
         if hung:
-            res[started] = "hang: no result within the watchdog time"
+            # the budget is per range: on a loaded machine it can run out on an innocent fault, so the fault that was
+            # in progress is evaluated again on its own, with a generous limit, before it is blamed
+            try:
+                q = subprocess.run(["prlimit", "--as=8000000000", drv, "eval", wd, str(started), str(started + 1)], stdout=subprocess.PIPE, stderr=subprocess.PIPE,
+                                   text=True, timeout=180, env=dict(os.environ, GOMAXPROCS="2"))
+                m = re.search(r"^(OK|BAD) %d ?(.*)$" % started, q.stdout, re.M)
+                if m:
+                    res[started] = m.group(2) if m.group(1) == "BAD" else ""
+                else:
+                    m = re.search(r"(fatal error: [^\n]*|panic: [^\n]*|runtime: out of memory[^\n]*)", q.stderr)
+                    res[started] = "crash: " + (m.group(1) if m else "child exited %s" % q.returncode)
+            except subprocess.TimeoutExpired:
+                res[started] = "hang: no result within 180 s for this single damaged file"
         else:
             m = re.search(r"(fatal error: [^\n]*|panic: [^\n]*|runtime: out of memory[^\n]*)", err)
             res[started] = "crash: " + (m.group(1) if m else "child exited %s" % p.returncode)
@@ -126,6 +138,13 @@ def run(pid, tier):
             pick.append(dict(base, id="fling%d" % li, refs=[], seekrefs=[],
                              logs=[{"n": nm, "i": 1, "del": False, "old": "", "new": one, "user": "user%d" % j, "email": "e%d@x" % j, "time": 5 + j, "tz": 0, "msg": "message %d" % j}
                                    for j, nm in enumerate(names)], seeklogs=[{"n": names[0], "i": 1}, {"n": names[13], "i": 1}, {"n": "zzz", "i": 1}]))
+        # an object id referenced from more than seven ref blocks: its object-index record uses the long count form
+        for oi, hs in enumerate([40, 64]):
+            one, two = "e5" * (hs // 2), "f6" * (hs // 2)
+            names = ["refs/heads/shared%04d" % j for j in range(90)]
+            pick.append({"id": "fobj%d" % oi, "blocksize": 256, "restart": 16, "unaligned": bool(oi), "skipindex": False, "hash": "sha1" if hs == 40 else "s256", "exact": False,
+                         "min": 1, "max": 1, "refs": [{"n": nm, "i": 1, "v": ["v", one if j % 9 else two, ""]} for j, nm in enumerate(names)], "logs": [],
+                         "seekrefs": [names[0], names[50]], "seeklogs": []})
         wd = os.path.join(sc, "faults")
         os.makedirs(wd)
         with open(os.path.join(wd, "cases.json"), "w") as f:
@@ -181,5 +200,24 @@ def run(pid, tier):
 
 
 def replay(pid, path):
-    print(open(path).read()[:3000])
-    return 1
+    """re-evaluates the recorded fault on the current tree"""
+    sc = C.mkscratch(pid)
+    try:
+        mod = C.assemble(sc)
+        drv = C.gobuild(mod, "drvfault", os.path.join(sc, "drvfault"))
+        with open(path) as f:
+            rp = json.load(f)
+        print("fault:", json.dumps(rp.get("fault")))
+        try:
+            p = subprocess.run([drv, "one", path, os.path.join(sc, "damaged.ref")], stdout=subprocess.PIPE, stderr=subprocess.STDOUT, text=True, timeout=120)
+            out = p.stdout
+        except subprocess.TimeoutExpired:
+            print("VIOLATION property=%s replay=%s\n  hang: no result within 120 s" % (pid, path))
+            return 1
+        print(out[-3000:])
+        if "\nOK" in out or out.startswith("START\nOK"):
+            return 0
+        print("VIOLATION property=%s replay=%s" % (pid, path))
+        return 1
+    finally:
+        shutil.rmtree(sc, ignore_errors=True)
